@@ -18,12 +18,23 @@ every container X references — so "sees the same" is: same records, and every 
 from outside the acting instance (`heldOutside`) keeps its contents.  `Inv` (Store/ObjectsLemmas.lean)
 holds in the empty world and is preserved by every operation, hence along every interleaving.
 
-The full statement is FALSE of the code: constructing an instance with a keyword value that a
-`Selector(check_on_set=False)` does not list yet appends it to the *class* Parameter's list
-(`C12_full_refuted`, witness replayed on the implementation by harness/props/c12.py `WITNESS`).
-Only property theorems and their non-vacuity examples live here; lemmas are in Store/ObjectsLemmas.lean.
+`C12_full` is the conjunction of the clauses of the statement (each clause a `def … : Prop` next to the
+theorem that proves it):
+  `InstanceWritesInvisible` ∧ `ClassWritesInvisible` ∧ `ValuesFollow` ∧ `SharedByIdentity` ∧ `CopiedPrivate` ∧
+  `ConstantKept`  (= `C12_except_construction`, PROVED: `C12_full_except_construction`)   ∧   `ConstructionInvisible`.
+The last conjunct is FALSE of the code, so the full statement is: constructing an instance with a keyword
+value that a `Selector(check_on_set=False)` does not list yet appends it to the *class* Parameter's list
+(`construction_is_the_failing_clause`, `C12_full_refuted`; witness replayed on the implementation by
+harness/props/c12.py `WITNESS`).  What holds of construction is `creation_invisible_elsewhere_partial`.
+
+What the model cannot say (so neither do the theorems): containers are flat lists of ints — `copy.deepcopy` and
+`copy.copy` coincide, "in-place mutation stays private" is one level deep; ints are the only immutable values
+(identical iff equal; C14 treats equal-but-distinct objects); a subclass that redeclares a Parameter gets an
+unrelated object (C11 treats inheritance of slot values); no watchers, `param.update`, `set_default`.
+Only property theorems and their non-vacuity examples live here; lemmas are in Store/ObjectsLemmas.lean and
+Store/ObjectsFrames.lean.
 -/
-import ParamVerif.Store.ObjectsLemmas
+import ParamVerif.Store.ObjectsFrames
 
 namespace ParamVerif.Objects
 open ParamVerif.Store
@@ -37,15 +48,11 @@ def instOp : Op → Option (InstId × Name)
   | .slotMut (.inst i) x _ => some (i, x)
   | _ => none
 
-/-- operations addressed to a class: `class K(..)`, `K.x = v`, `K.x.append(v)`, `K.param.x.<attr> = v`, .. -/
-def classOp : Op → Bool
-  | .mkClass .. => true
-  | .setVal (.cls _) .. => true
-  | .mutVal (.cls _) .. => true
-  | .slotSet (.cls _) .. => true
-  | .slotMut (.cls _) .. => true
-  | .sharedFail => true
-  | _ => false
+-- `classOp` (operations addressed to a class) and `assigns` (`obj.x = v` ↦ `(obj, x)`) are defined in
+-- Store/ObjectsFrames.lean
+
+/-- the history never assigns `x` on instance `i` (`obj.x = v` is the only operation that stores a value) -/
+def neverSets (i : InstId) (x : Name) (ops : List Op) : Prop := ∀ op ∈ ops, assigns op ≠ some (i, x)
 
 /-- "unless the Parameter opted out with `per_instance=False`": instance `i` has, or may get, a
 Parameter object of its own for `x` -/
@@ -100,14 +107,19 @@ theorem instEffect_of_instOp {w : World} {op : Op} {i : InstId} {x : Name}
     | inst j => simp [instOp] at ht; obtain ⟨rfl, rfl⟩ := ht; exact doSlotMut_own hI hr ho
   | sharedFail => simp [instOp] at ht
 
+/-- clause 1: in any world satisfying the invariant (every reachable one), an operation on an instance that has, or may
+get, its own Parameter object is invisible to every class and every other instance -/
+def InstanceWritesInvisible : Prop :=
+  ∀ (w : World) (op : Op) (i : InstId) (x : Name), Inv w → instOp op = some (i, x) → usesOwn w i x →
+    InvisibleElsewhere w (step w op).1 i
+
 /-- **C12 (instance_write_invisible_elsewhere).**  In any reachable world, assigning a value on an
 instance, touching `obj.param.x` for the first time, assigning or mutating in place an attribute of
 `obj.param.x` (values *and* Parameter attributes) changes no class `__dict__`, no other instance's
 record and the contents of no container that a class or another instance references — unless the
 Parameter opted out with `per_instance=False`.  Also when the operation raises. -/
-theorem instance_write_invisible_elsewhere (w : World) (inv : Inv w) (op : Op) (i : InstId) (x : Name)
-    (ht : instOp op = some (i, x)) (hown : usesOwn w i x) :
-    InvisibleElsewhere w (step w op).1 i := by
+theorem instance_write_invisible_elsewhere : InstanceWritesInvisible := by
+  intro w op i x inv ht hown
   have e := instEffect_of_instOp ht hown
   refine ⟨e.classesEq, fun j hj _ => e.othersEq j hj, ?_⟩
   intro c ho
@@ -124,7 +136,7 @@ theorem instance_write_invisible_elsewhere (w : World) (inv : Inv w) (op : Op) (
 theorem instance_write_invisible_after_any_history (ops : List Op) (op : Op) (i : InstId) (x : Name)
     (ht : instOp op = some (i, x)) (hown : usesOwn (run World.empty ops) i x) :
     InvisibleElsewhere (run World.empty ops) (step (run World.empty ops) op).1 i :=
-  instance_write_invisible_elsewhere _ (reachable_inv ops) op i x ht hown
+  instance_write_invisible_elsewhere _ op i x (reachable_inv ops) ht hown
 
 /-- **C12 (private stays private).**  No operation whatsoever makes a container that only instance
 `i` references visible to a class or to another instance. -/
@@ -144,11 +156,11 @@ theorem private_stays_private_run (ops : List Op) : ∀ (w : World) (i : InstId)
 
 /-! ## Construction -/
 
-/-- the full statement for construction: `K(**kwargs)` is invisible to every class and every
-existing instance -/
-def C12_full : Prop :=
-  ∀ (w : World) (k : ClsId) (kwargs : List (Name × Lit)), Inv w →
-    InvisibleElsewhere w (doMkInst w k kwargs).1 w.insts.length
+/-- the clause for construction: in every reachable world `K(**kwargs)` is invisible to every class and every
+existing instance.  FALSE of the code (`construction_is_the_failing_clause`). -/
+def ConstructionInvisible : Prop :=
+  ∀ (ops : List Op) (k : ClsId) (kwargs : List (Name × Lit)),
+    InvisibleElsewhere (run World.empty ops) (doMkInst (run World.empty ops) k kwargs).1 (run World.empty ops).insts.length
 
 /-- **C12 (creation, partial).**  Constructing an instance changes no class `__dict__`, no existing
 instance record and the contents of no existing container, PROVIDED no keyword gives a
@@ -172,12 +184,11 @@ def c12Decl : Decl :=
     perInstance := true, checkOnSet := false, boundsTup := none, boundsList := none, objects := some [1, 2] }
 def c12Witness : World := run World.empty [.mkClass [] [c12Decl], .mkInst 0 []]
 
-/-- **C12 is false as stated**: in the witness world `A(s=99)` changes the list the class Parameter
+/-- **the construction clause is false**: in the witness world `A(s=99)` changes the list the class Parameter
 `A.param.s` (and with it every other instance) sees, from `[1, 2]` to `[1, 2, 99]`. -/
-theorem C12_full_refuted : ¬ C12_full := by
+theorem construction_is_the_failing_clause : ¬ ConstructionInvisible := by
   intro h
-  have inv : Inv c12Witness := reachable_inv _
-  have := (h c12Witness 0 [(1, .int 99)] inv).2.2 0
+  have := (h [.mkClass [] [c12Decl], .mkInst 0 []] 0 [(1, .int 99)]).2.2 0
     (Or.inl ⟨{ mro := [0], own := [(1, (declare [] 0 c12Decl).1)] }, by decide, (1, (declare [] 0 c12Decl).1),
       by decide, by decide⟩)
   revert this
@@ -185,9 +196,9 @@ theorem C12_full_refuted : ¬ C12_full := by
 
 /-! ## Defaults, own values, copies -/
 
-/-- **C12 (unset_instance_follows_class_default).**  An instance without a value of its own for `x`
-reads, in every world, the object that is the class default *in that world*: after any further
-history that does not assign `x` on that instance, it follows the class. -/
+/-- An instance without a value of its own for `x` reads, in every world, the object that is the class default
+*in that world*.  (This is how `Parameter.__get__` is written — the definition of `getInst`; the statement about
+*histories* is `set_instance_keeps_own` below.) -/
 theorem unset_instance_follows_class_default (w : World) (i : InstId) (I : Inst) (x : Name)
     (hI : w.insts[i]? = some I) (hunset : aget I.values x = none) :
     w.getInst i x = w.getCls I.cls x := by
@@ -224,30 +235,95 @@ theorem class_ops_keep_instances (ops : List Op) : ∀ (w : World), (∀ op ∈ 
     show (run (step w op).1 ops).insts = w.insts
     rw [ih _ (fun o ho => h o (by simp [ho])), class_op_keeps_instances w op (h op (by simp))]
 
-/-- **C12 (set_instance_keeps_own).**  An instance that holds a value of its own for `x` still reads
-exactly that object after any sequence of class-level operations (reassignment of the default on
-the class or a subclass, in-place changes, Parameter attribute changes); one that does not, reads
-the class default current after them. -/
-theorem set_instance_keeps_own (w : World) (ops : List Op) (hc : ∀ op ∈ ops, classOp op = true)
-    (i : InstId) (I : Inst) (x : Name) (hI : w.insts[i]? = some I) :
+/-- clause 2 (the direction class → instance): a class-addressed operation (`K.x = v` — which may append to the
+class Parameter's `objects` —, `K.x.append(v)`, `K.param.x.<attr> = v`, in-place changes of `K.param.x.<attr>`,
+declaring a class) leaves every instance record as it is — stored values and per-instance Parameter copies —
+and changes the contents of no container that an instance references and no class does; in particular of no
+container in a slot of a per-instance Parameter copy -/
+def ClassWritesInvisible : Prop :=
+  ∀ (w : World) (op : Op), Inv w → classOp op = true →
+    (step w op).1.insts = w.insts ∧
+    (∀ (i : Nat) (I : Inst), w.insts[i]? = some I → ∀ c : Nat, heldByInst I c → ¬ heldByClass w c →
+      deref (step w op).1.cells c = deref w.cells c) ∧
+    (∀ (i : Nat) (I : Inst), w.insts[i]? = some I → ∀ c : Nat, slotCellOf I c →
+      deref (step w op).1.cells c = deref w.cells c)
+
+/-- **C12 (class_write_invisible_to_instances).**  Also when the operation raises. -/
+theorem class_write_invisible_to_instances : ClassWritesInvisible := by
+  intro w op inv hc
+  have ht := step_cls_touch w op hc
+  have key : ∀ (i : Nat) (I : Inst), w.insts[i]? = some I → ∀ c : Nat, heldByInst I c → ¬ heldByClass w c →
+      deref (step w op).1.cells c = deref w.cells c := by
+    intro i I hI c hh hn
+    apply Classical.byContradiction
+    intro hne
+    exact hn (ht c (inv.boundedInst i I hI c hh) hne)
+  refine ⟨class_op_keeps_instances w op hc, key, ?_⟩
+  intro i I hI c hs
+  exact key i I hI c (slotCellOf_held hs) (fun h => inv.slotPriv i I hI c hs (Or.inl h))
+
+/-- a history of class-addressed operations assigns nothing on any instance -/
+theorem classOps_neverSet {ops : List Op} (h : ∀ op ∈ ops, classOp op = true) (i : InstId) (x : Name) :
+    neverSets i x ops := by
+  intro op hop
+  have := h op hop
+  cases op with
+  | setVal t y v =>
+    cases t with
+    | inst j => simp [classOp] at this
+    | cls k => simp [assigns]
+  | _ => simp [assigns]
+
+/-- **C12 (stored values, any interleaving).**  Whatever the history does — class and subclass assignments,
+other instances' writes, construction of further instances, `obj.param.x` accesses, Parameter-attribute changes
+and in-place mutations on any target, assignments to *other* names of the same instance — as long as it does not
+assign `x` on instance `i`, the entry for `x` in `i`'s stored values (a value, or "none stored") is what it was,
+and so is `i`'s class. -/
+theorem stored_value_survives_any_history (w : World) (ops : List Op) (i : InstId) (I : Inst) (x : Name)
+    (hI : w.insts[i]? = some I) (hn : neverSets i x ops) :
+    ∃ I', (run w ops).insts[i]? = some I' ∧ I'.cls = I.cls ∧ aget I'.values x = aget I.values x :=
+  run_vals i x ops w hn I hI
+
+/-- clause 3: "an instance that never set a (non-instantiated) parameter follows later changes of the class default,
+one that did keeps its own value" — over every interleaving that does not assign `x` on that instance -/
+def ValuesFollow : Prop :=
+  ∀ (w : World) (ops : List Op) (i : InstId) (I : Inst) (x : Name), w.insts[i]? = some I → neverSets i x ops →
     (∀ v, aget I.values x = some v → (run w ops).getInst i x = some v) ∧
-    (aget I.values x = none → (run w ops).getInst i x = (run w ops).getCls I.cls x) := by
-  have hi : (run w ops).insts[i]? = some I := by rw [class_ops_keep_instances ops w hc]; exact hI
+    (aget I.values x = none → (run w ops).getInst i x = (run w ops).getCls I.cls x)
+
+/-- **C12 (set_instance_keeps_own / unset follows the class).**  An instance that holds a value of its own for `x`
+still reads exactly that object after ANY history that does not assign `x` on it; one that holds none reads the
+class default current after that history (whatever class or subclass assignments it contained). -/
+theorem set_instance_keeps_own : ValuesFollow := by
+  intro w ops i I x hI hn
+  obtain ⟨I', hI', hc, hv⟩ := run_vals i x ops w hn I hI
   constructor
-  · intro v hv; simp [World.getInst, World.inst?, hi, hv]
-  · intro hv; exact unset_instance_follows_class_default _ i I x hi hv
+  · intro v h; simp [World.getInst, World.inst?, hI', hv, h]
+  · intro h; rw [← hc]; exact unset_instance_follows_class_default _ i I' x hI' (by rw [hv, h])
+
+/-- a successful `K(**kwargs)` in a world satisfying the invariant, a parameter `x` of `K` that no keyword assigns, and
+the class Parameter `P` (found in class `k'`) that serves it -/
+structure Unassigned (w : World) (k : ClsId) (kwargs : List (Name × Lit)) (x : Name) (k' : ClsId) (P : PObj) : Prop where
+  inv : Inv w
+  ok : (doMkInst w k kwargs).2 = none
+  vis : x ∈ w.visible k
+  notKw : x ∉ assignedNames kwargs
+  res : w.resolve k x = some (k', P)
+
+/-- clause 4: `instantiate=False` defaults are shared by identity -/
+def SharedByIdentity : Prop :=
+  ∀ (w : World) (k : ClsId) (kwargs : List (Name × Lit)) (x : Name) (k' : ClsId) (P : PObj),
+    Unassigned w k kwargs x k' P → P.instantiate = false →
+    ∃ I, (doMkInst w k kwargs).1.insts = w.insts ++ [I] ∧
+      (aget I.values x = none ∨ aget I.values x = some P.default) ∧
+      (doMkInst w k kwargs).1.getInst w.insts.length x = some P.default
 
 /-- **C12 (instantiate_false_shared_by_identity).**  After a successful `K(**kwargs)`, a parameter
 not assigned by a keyword whose class Parameter has `instantiate=False` is either not stored on the new
 instance at all (it reads the class default object itself) or — `constant=True` — stored as a
 reference to the very object that is the class default. -/
-theorem instantiate_false_shared_by_identity (w : World) (inv : Inv w) (k : ClsId)
-    (kwargs : List (Name × Lit)) (hok : (doMkInst w k kwargs).2 = none)
-    (x : Name) (hx : x ∈ w.visible k) (hkw : x ∉ assignedNames kwargs) (k' : ClsId) (P : PObj)
-    (hr : w.resolve k x = some (k', P)) (hi : P.instantiate = false) :
-    ∃ I, (doMkInst w k kwargs).1.insts = w.insts ++ [I] ∧
-      (aget I.values x = none ∨ aget I.values x = some P.default) ∧
-      (doMkInst w k kwargs).1.getInst w.insts.length x = some P.default := by
+theorem instantiate_false_shared_by_identity : SharedByIdentity := by
+  intro w k kwargs x k' P ⟨inv, hok, hx, hkw, hr⟩ hi
   obtain ⟨I, h1, h2, _, h4⟩ := doMkInst_values inv.boundedCls hok
   have hinit := h4 x hx hkw k' P hr
   simp only [InitOK, hi, Bool.false_eq_true, if_false] at hinit
@@ -264,33 +340,38 @@ theorem instantiate_false_shared_by_identity (w : World) (inv : Inv w) (k : ClsI
     · simp [hinit]
     · simp [hinit, h2, hres]
 
-/-- **C12 (constant_keeps_construction_object).**  A `constant` (non-instantiated) parameter not given
-as keyword is stored on the new instance as a reference to the object that is the class default at
-construction time, and (by `set_instance_keeps_own`) no class-level operation — in particular
-reassigning the class default — changes what the instance holds. -/
-theorem constant_keeps_construction_object (w : World) (inv : Inv w) (k : ClsId)
-    (kwargs : List (Name × Lit)) (hok : (doMkInst w k kwargs).2 = none)
-    (x : Name) (hx : x ∈ w.visible k) (hkw : x ∉ assignedNames kwargs) (k' : ClsId) (P : PObj)
-    (hr : w.resolve k x = some (k', P)) (hi : P.instantiate = false) (hc : P.constant = true)
-    (ops : List Op) (hops : ∀ op ∈ ops, classOp op = true) :
-    (run (doMkInst w k kwargs).1 ops).getInst w.insts.length x = some P.default := by
+/-- clause 6: "a constant parameter keeps the object it had at construction even if the class default is reassigned" -/
+def ConstantKept : Prop :=
+  ∀ (w : World) (k : ClsId) (kwargs : List (Name × Lit)) (x : Name) (k' : ClsId) (P : PObj),
+    Unassigned w k kwargs x k' P → P.instantiate = false → P.constant = true →
+    ∀ ops : List Op, neverSets w.insts.length x ops →
+      (run (doMkInst w k kwargs).1 ops).getInst w.insts.length x = some P.default
+
+/-- **C12 (constant_keeps_construction_object).**  A `constant` parameter whose default is not deep-copied
+(`instantiate=False`: a Parameter made constant after its declaration, or a read-only one) and that is not given as
+keyword is stored on the new instance as a reference to the object that is the class default at construction
+time, and NO later history that does not assign it on that instance — in particular none that reassigns the class
+default — changes what the instance holds.  (A Parameter declared `constant=True` has `instantiate=True`:
+the instance then holds its own copy, `instantiate_true_copied_so_mutation_private`, equally for good.) -/
+theorem constant_keeps_construction_object : ConstantKept := by
+  intro w k kwargs x k' P ⟨inv, hok, hx, hkw, hr⟩ hi hc ops hops
   obtain ⟨I, h1, _, _, h4⟩ := doMkInst_values inv.boundedCls hok
   have hinit := h4 x hx hkw k' P hr
   simp only [InitOK, hi, hc, Bool.false_eq_true, if_false, if_true] at hinit
   have hI : (doMkInst w k kwargs).1.insts[w.insts.length]? = some I := by rw [h1]; simp
-  exact (set_instance_keeps_own _ ops hops _ I x hI).1 _ hinit
+  exact (set_instance_keeps_own _ ops _ I x hI hops).1 _ hinit
 
 /-- **C12 (instantiate / constant with a `None` or scalar default).**  When the class default is `None` (or
 an int) at construction time, an `instantiate=True` or `constant` parameter not given as keyword is
 still *stored* on the new instance (`deepcopy(None)` / a reference to `None`): the instance owns that
 value, so reassigning the class default later — to a list, say — does not show through on it. -/
-theorem scalar_default_stored_at_construction (w : World) (inv : Inv w) (k : ClsId)
-    (kwargs : List (Name × Lit)) (hok : (doMkInst w k kwargs).2 = none)
-    (x : Name) (hx : x ∈ w.visible k) (hkw : x ∉ assignedNames kwargs) (k' : ClsId) (P : PObj)
-    (hr : w.resolve k x = some (k', P)) (hic : P.instantiate = true ∨ P.constant = true)
+theorem scalar_default_stored_at_construction (w : World) (k : ClsId) (kwargs : List (Name × Lit))
+    (x : Name) (k' : ClsId) (P : PObj) (hu : Unassigned w k kwargs x k' P)
+    (hic : P.instantiate = true ∨ P.constant = true)
     (hd : P.default = .none ∨ ∃ n, P.default = .int n)
-    (ops : List Op) (hops : ∀ op ∈ ops, classOp op = true) :
+    (ops : List Op) (hops : neverSets w.insts.length x ops) :
     (run (doMkInst w k kwargs).1 ops).getInst w.insts.length x = some P.default := by
+  obtain ⟨inv, hok, hx, hkw, hr⟩ := hu
   obtain ⟨I, h1, _, _, h4⟩ := doMkInst_values inv.boundedCls hok
   have hinit := h4 x hx hkw k' P hr
   have hI : (doMkInst w k kwargs).1.insts[w.insts.length]? = some I := by rw [h1]; simp
@@ -303,30 +384,39 @@ theorem scalar_default_stored_at_construction (w : World) (inv : Inv w) (k : Cls
       · exact absurd h hi
       · simp only [hi, h, if_true] at hinit
         simpa using hinit
-  exact (set_instance_keeps_own _ ops hops _ I x hI).1 _ hv
+  exact (set_instance_keeps_own _ ops _ I x hI hops).1 _ hv
+
+/-- clause 5: "mutable defaults of `instantiate=True` parameters are copied per instance so in-place mutation stays
+private" -/
+def CopiedPrivate : Prop :=
+  ∀ (w : World) (k : ClsId) (kwargs : List (Name × Lit)) (x : Name) (k' : ClsId) (P : PObj),
+    Unassigned w k kwargs x k' P → P.instantiate = true → ∀ d : Nat, P.default = .ref d →
+    ∃ (I : Inst) (c' : Nat), (doMkInst w k kwargs).1.insts = w.insts ++ [I] ∧
+      aget I.values x = some (.ref c') ∧ c' ≠ d ∧ w.cells.length ≤ c' ∧
+      deref (doMkInst w k kwargs).1.cells c' = deref w.cells d ∧
+      ∀ ops : List Op, ¬ heldOutside (run (doMkInst w k kwargs).1 ops) w.insts.length c' ∧
+        (neverSets w.insts.length x ops →
+          (run (doMkInst w k kwargs).1 ops).getInst w.insts.length x = some (.ref c'))
 
 /-- **C12 (instantiate_true_copied_so_mutation_private).**  For a parameter with `instantiate=True`
 whose class default is a container `d`, a successful `K(**kwargs)` (not naming it) stores a *new*
 container with equal contents; nobody but the new instance references it, not then and not after any
-further interleaving of operations; hence (`mutation_touches_one_container`) mutating it in place is
+further interleaving of operations, and the instance goes on holding it until it is assigned there; hence
+(`mutation_touches_one_container`, `class_write_invisible_to_instances`) mutating it in place is
 seen by nobody else, and mutating the class default or another instance's copy does not change it. -/
-theorem instantiate_true_copied_so_mutation_private (w : World) (inv : Inv w) (k : ClsId)
-    (kwargs : List (Name × Lit)) (hok : (doMkInst w k kwargs).2 = none)
-    (x : Name) (hx : x ∈ w.visible k) (hkw : x ∉ assignedNames kwargs) (k' : ClsId) (P : PObj)
-    (hr : w.resolve k x = some (k', P)) (hi : P.instantiate = true) (d : Nat) (hd : P.default = .ref d) :
-    ∃ (I : Inst) (c' : Nat), (doMkInst w k kwargs).1.insts = w.insts ++ [I] ∧
-      aget I.values x = some (.ref c') ∧ c' ≠ d ∧ w.cells.length ≤ c' ∧
-      deref (doMkInst w k kwargs).1.cells c' = deref w.cells d ∧
-      ∀ ops : List Op, ¬ heldOutside (run (doMkInst w k kwargs).1 ops) w.insts.length c' := by
+theorem instantiate_true_copied_so_mutation_private : CopiedPrivate := by
+  intro w k kwargs x k' P ⟨inv, hok, hx, hkw, hr⟩ hi d hd
   obtain ⟨I, h1, _, _, h4⟩ := doMkInst_values inv.boundedCls hok
   have hinit := h4 x hx hkw k' P hr
   simp only [InitOK, hi, hd, if_true] at hinit
   obtain ⟨c', hv, hfresh, hlt, hcont⟩ := hinit
   have hdl : d < w.cells.length :=
     inv.boundedCls d (resolve_held hr d (by simp [PObj.cells, hd, Val.cells]))
+  have hI : (doMkInst w k kwargs).1.insts[w.insts.length]? = some I := by rw [h1]; simp
   refine ⟨I, c', h1, hv, by omega, hfresh, hcont, ?_⟩
   intro ops
-  exact private_stays_private_run ops _ _ c' hlt ((doMkInst_effect w k kwargs).1.fresh_private inv hfresh)
+  exact ⟨private_stays_private_run ops _ _ c' hlt ((doMkInst_effect w k kwargs).1.fresh_private inv hfresh),
+    fun hn => (set_instance_keeps_own _ ops _ I x hI hn).1 _ hv⟩
 
 /-- **C12 (in-place mutation).**  `target.x.append(v)` changes the contents of exactly one container,
 the one `target.x` evaluates to; all records stay as they are.  So a mutation through an instance is
@@ -375,6 +465,25 @@ theorem subclass_copy_has_own_slots (w : World) (k k' : ClsId) (x : Name) (lit :
     have := hfresh sc.1 sc.2 hsc
     simp at this; omega
 
+/-! ## The statement as a whole -/
+
+/-- every clause of C12 but the one about construction -/
+def C12_except_construction : Prop :=
+  InstanceWritesInvisible ∧ ClassWritesInvisible ∧ ValuesFollow ∧ SharedByIdentity ∧ CopiedPrivate ∧ ConstantKept
+
+/-- the full statement: all clauses -/
+def C12_full : Prop := C12_except_construction ∧ ConstructionInvisible
+
+/-- **C12, everything but construction, holds** -/
+theorem C12_full_except_construction : C12_except_construction :=
+  ⟨instance_write_invisible_elsewhere, class_write_invisible_to_instances, set_instance_keeps_own,
+   instantiate_false_shared_by_identity, instantiate_true_copied_so_mutation_private,
+   constant_keeps_construction_object⟩
+
+/-- **C12 is false as stated** — and the conjunct that fails is the construction clause, the others being proved
+(`C12_full_except_construction`): `C12_full ↔ ConstructionInvisible`, which is refuted. -/
+theorem C12_full_refuted : ¬ C12_full := fun h => construction_is_the_failing_clause h.2
+
 /-! ## Non-vacuity -/
 
 def c12Decls : List Decl :=
@@ -407,6 +516,31 @@ example : ∀ e ∈ ([(1, Lit.int 2)] : List (Name × Lit)), kwargSafe c12World 
   have : aget (declare [[0, 10]] 0 c12Decl).1.mslots Slot.objects = some 1 := by decide
   rw [this] at ho; simp at ho; subst ho
   decide
+-- an interleaved history — another instance's write, a class assignment, `obj.param.x`, a Parameter-attribute edit and
+-- an assignment to another name on the same instance, a further construction — that never assigns name 0 on instance 0:
+def c12Mixed : List Op :=
+  [.setVal (.inst 1) 0 (.int 3), .setVal (.cls 0) 0 (.int 7), .access 0 0, .slotSet (.inst 0) 0 (.boundsTup (some (0, 9))),
+   .setVal (.inst 0) 1 (.int 2), .mkInst 1 []]
+example : neverSets 0 0 c12Mixed := by
+  intro op h
+  simp only [c12Mixed, List.mem_cons, List.mem_nil_iff, or_false] at h
+  rcases h with rfl | rfl | rfl | rfl | rfl | rfl <;> simp [assigns]
+-- … instance 0 follows the class default through it; had it set the value first, it keeps its own
+example : (run c12World c12Mixed).getInst 0 0 = some (.int 7) := by decide
+example : (run (run c12World [.setVal (.inst 0) 0 (.int 4)]) c12Mixed).getInst 0 0 = some (.int 4) := by decide
+-- the hypotheses of the construction clauses hold for `A()` and the `instantiate=True` list parameter 2
+example : ∃ k' P, Unassigned c12World 0 [] 2 k' P ∧ P.instantiate = true := by
+  cases h : c12World.resolve 0 2 with
+  | none => exact absurd h (by decide)
+  | some kP =>
+    have hi : (c12World.resolve 0 2).map (·.2.instantiate) = some true := by decide
+    rw [h] at hi; simp at hi
+    exact ⟨kP.1, kP.2, ⟨reachable_inv _, by decide, by decide, by decide, h⟩, hi⟩
+-- class → instance: once instance 0 has its own copy of the Selector (lists 7, 8), `A.s = 50` appends to the class
+-- list (1) and not to the instance's
+example : classOp (.setVal (.cls 0) 1 (.int 50)) = true := rfl
+example : deref (run c12World [.access 0 1, .setVal (.cls 0) 1 (.int 50)]).cells 1 = [1, 2, 50] ∧
+    deref (run c12World [.access 0 1, .setVal (.cls 0) 1 (.int 50)]).cells 7 = [1, 2] := by decide
 -- the subclass follows the class default until it is assigned there (copy-on-write)
 example : (run c12World [.setVal (.cls 0) 0 (.int 7)]).getInst 1 0 = some (.int 7) := by decide
 example : (run c12World [.setVal (.cls 1) 0 (.int 9), .setVal (.cls 0) 0 (.int 7)]).getInst 1 0 = some (.int 9) := by decide
